@@ -43,6 +43,12 @@ def affine(aseed, dtype, trange):
         half = (tmax - tmin + 1) // 2 + 1
         a = rng.choice([x for x in (-3, -2, -1, 1, 2, 3) if abs(x) * half <= 30000])
         b = rng.choice([0, 0, 5, -11, 100])
+        if rng.random() < 0.4 and abs(a) * (tmax - tmin) <= 60000:
+            # values at the limits of the element type: the largest pixel is 32767 or the smallest is -32768 (sums of a
+            # block do not fit int16 then; results are selections / exact means all the same)
+            lo, hi = min(a * tmin, a * tmax), max(a * tmin, a * tmax)
+            b = 32767 - hi if rng.random() < 0.5 else -32768 - lo
+            return a, b
         if max(abs(a * tmin + b), abs(a * tmax + b)) > 32000:
             b = -a * ((tmin + tmax) // 2) + rng.choice([0, 3, -8])          # centre the values in the int16 range
         if max(abs(a * tmin + b), abs(a * tmax + b)) > 32700:
